@@ -131,10 +131,10 @@ func (q *qstream) Write(p []byte) (int, error) {
 	}
 	return q.s.out.Write(p)
 }
-func (q *qstream) Close() error                { return nil }
-func (q *qstream) FullClose() error            { return nil }
-func (q *qstream) Reset() error                { return nil }
-func (q *qstream) Headers() p2p.Headers        { return nil }
+func (q *qstream) Close() error                 { return nil }
+func (q *qstream) FullClose() error             { return nil }
+func (q *qstream) Reset() error                 { return nil }
+func (q *qstream) Headers() p2p.Headers         { return nil }
 func (q *qstream) ResponseHeaders() p2p.Headers { return nil }
 
 // Net is the shared message queue of one scenario.
@@ -142,7 +142,7 @@ type Net struct {
 	mu     sync.Mutex
 	seq    int
 	queue  []*Sent
-	Refuse func(from int, to boson.Address, stream string) error // optional: NewStream error
+	Refuse func(from int, to boson.Address, stream string) error  // optional: NewStream error
 	Reply  func(from int, to boson.Address, stream string) []byte // optional: bytes the opener reads back
 }
 
@@ -247,10 +247,10 @@ func (s *Incoming) Written() []byte {
 	defer s.mu.Unlock()
 	return append([]byte(nil), s.Out.Bytes()...)
 }
-func (s *Incoming) Close() error                { return nil }
-func (s *Incoming) FullClose() error            { return nil }
-func (s *Incoming) Reset() error                { return nil }
-func (s *Incoming) Headers() p2p.Headers        { return nil }
+func (s *Incoming) Close() error                 { return nil }
+func (s *Incoming) FullClose() error             { return nil }
+func (s *Incoming) Reset() error                 { return nil }
+func (s *Incoming) Headers() p2p.Headers         { return nil }
 func (s *Incoming) ResponseHeaders() p2p.Headers { return nil }
 
 // Handler finds a stream handler in a protocol spec.
